@@ -174,6 +174,40 @@ def enc_int(x, n: int, order: str):
     return items if order == "little" else list(reversed(items))
 
 
+def _key(items):
+    return tuple(i.get_id() if is_z3(i) else ("c", i) for i in items)
+
+
+def dec_int_cached(ctx, items, order, signed):
+    """dec_int with the inverse law dec(enc(x)) == x applied structurally (x known to fit: the encoder
+    only produced these bytes on the path where fits(x) holds). The law itself is checked by the solver
+    for every width in pyvc.crosscheck."""
+    le = list(items) if order == "little" else list(reversed(items))
+    cache = ctx.ghost.setdefault("codec", {"enc": {}, "dec": {}})
+    hit = cache["enc"].get((_key(le), signed))
+    if hit is not None:
+        return hit
+    v = _norm(dec_int(items, order, signed))
+    if is_z3(v):
+        cache["dec"][(v.get_id(), len(le))] = (le, v)
+    return v
+
+
+def enc_int_cached(ctx, x, n, order, signed):
+    """enc_int with enc(dec(bytes)) == bytes applied structurally (same width)."""
+    cache = ctx.ghost.setdefault("codec", {"enc": {}, "dec": {}})
+    if is_z3(x):
+        hit = cache["dec"].get((x.get_id(), n))
+        if hit is not None:
+            le = hit[0]
+            return list(le) if order == "little" else list(reversed(le))
+    items = enc_int(x, n, order)
+    le = items if order == "little" else list(reversed(items))
+    if is_z3(x):
+        cache["enc"][(_key(le), signed)] = x
+    return items
+
+
 def fits(x, n: int, signed: bool):
     lo, hi = (-(1 << (8 * n - 1)), (1 << (8 * n - 1)) - 1) if signed else (0, (1 << (8 * n)) - 1)
     if n == 0:
@@ -238,8 +272,16 @@ def m_max(interp, *args, **kw):
     vals = list(args[0]) if len(args) == 1 else list(args)
     vals = [strip(v) for v in vals]
     r = vals[0]
+    ctx = interp.ctx
     for v in vals[1:]:
-        c = interp.ctx.le(r, v) if False else interp.ctx.lt(r, v)
+        c = ctx.lt(r, v)
+        if not isinstance(c, bool):
+            # decide the comparison when the path condition settles it: keeps terms free of If
+            if ctx.valid(ctx.le(r, v)):
+                r = v
+                continue
+            if ctx.valid(ctx.le(v, r)):
+                continue
         r = _norm(_ite(c, v, r))
     return r
 
@@ -356,9 +398,14 @@ def m_map(interp, f, *its):
     return [interp.call(f, list(xs)) for xs in zip(*lists)]
 
 
-@model(sorted)
+@model(sorted, always=True)
 def m_sorted(interp, it, key=None, reverse=False):
-    raise Unsupported("sorted over symbolic values")
+    items = interp.iterate(it)
+    keys = [interp.call(key, [x]) if key is not None else x for x in items]
+    if deep_symbolic(keys):
+        raise Unsupported("sorted over symbolic keys")
+    order = sorted(range(len(items)), key=lambda i: keys[i], reverse=bool(reverse))
+    return [items[i] for i in order]
 
 
 @model(hasattr)
@@ -392,7 +439,10 @@ def m_enum_call(interp, cls, value, *a, **k):
 def _int_new(interp, cls, value=0, *rest):
     r = construct(interp, cls, (value, *rest), {})
     if r is NotImplemented:
-        raise Unsupported(f"{cls.__name__}.__new__ with symbolic value")
+        if deep_symbolic(value) or deep_symbolic(rest):
+            raise Unsupported(f"{cls.__name__}.__new__ with symbolic value")
+        base = int if issubclass(cls, int) else float if issubclass(cls, float) else bytes if issubclass(cls, bytes) else str
+        return base.__new__(cls, value, *rest)
     return r
 
 
@@ -412,7 +462,7 @@ def m_from_bytes(interp, cls, data, byteorder="big", *, signed=False):
     for it in items:
         if is_z3(it):
             interp.ctx.assume_byte(it)
-    v = _norm(dec_int(items, byteorder, bool(signed)))
+    v = dec_int_cached(interp.ctx, items, byteorder, bool(signed))
     if cls is int:
         return v
     r = construct(interp, cls, (v,), {})
@@ -426,7 +476,7 @@ def to_bytes(interp, x, length=1, byteorder="big", *, signed=False):
     ok = fits(x, length, bool(signed))
     if not interp.truth(ok):
         raise PyRaise(OverflowError, None, "int too big to convert")
-    return SBytes(enc_int(x, length, byteorder))
+    return SBytes(enc_int_cached(interp.ctx, x, length, byteorder, bool(signed)))
 
 
 def construct(interp, cls, args, kwargs):
@@ -441,6 +491,8 @@ def construct(interp, cls, args, kwargs):
     if not args:
         return NotImplemented
     v = args[0]
+    if not deep_symbolic(args) and not deep_symbolic(kwargs):
+        return NotImplemented
     if isinstance(cls, EnumMetaType):
         return SEnum(cls, strip(v))
     if issubclass(cls, Pointer):
@@ -690,12 +742,12 @@ def m_struct_unpack(interp, st, data):
         elif ch in _INT_CHARS:
             sz, sg = _INT_CHARS[ch]
             for _ in range(cnt):
-                out.append(_norm(dec_int(raw[pos : pos + sz], order, sg)))
+                out.append(dec_int_cached(interp.ctx, raw[pos : pos + sz], order, sg))
                 pos += sz
         elif ch in _FLOAT_CHARS:
             sz = _FLOAT_CHARS[ch]
             for _ in range(cnt):
-                out.append(SFloat(_norm(dec_int(raw[pos : pos + sz], order, False)), sz * 8))
+                out.append(SFloat(dec_int_cached(interp.ctx, raw[pos : pos + sz], order, False), sz * 8))
                 pos += sz
         else:
             raise Unsupported(f"struct format char {ch!r}")
@@ -723,14 +775,14 @@ def m_struct_pack(interp, st, *vals):
                 ok = fits(v, sz, sg)
                 if not interp.truth(ok):
                     raise PyRaise(_struct_mod.error, None, "argument out of range")
-                out += enc_int(v, sz, order)
+                out += enc_int_cached(interp.ctx, v, sz, order, sg)
         elif ch in _FLOAT_CHARS:
             sz = _FLOAT_CHARS[ch]
             for _ in range(cnt):
                 v = vals[vi]
                 vi += 1
                 if isinstance(v, SFloat) and v.width == sz * 8:
-                    out += enc_int(v.bits, sz, order)
+                    out += enc_int_cached(interp.ctx, v.bits, sz, order, False)
                 elif isinstance(v, (int, float)) and not isinstance(v, bool):
                     out += list(_struct_mod.pack(("<" if order == "little" else ">") + ch, v))
                 else:
@@ -924,6 +976,16 @@ def bit_and(interp, a, b):
     if isinstance(a, int) and not isinstance(b, int):
         a, b = b, a
     if isinstance(b, int):
+        if b in (1, 3, 7, 15) and not interp.ctx.valid(z3.And(zint(a) >= 0, zint(a) <= 255)):
+            # alignment idiom (-offset & (alignment - 1)): the result has at most 16 values; case-split it so
+            # that positions stay linear (exact: every case is explored)
+            r = _norm(zint(a) % (b + 1))
+            if is_z3(r):
+                for k in range(0, b + 1):
+                    if interp.ctx.branch(interp.ctx.eq(r, k)):
+                        return k
+                raise Infeasible()
+            return r
         if b > 0:
             runs = list(sym._runs(b))
             if len(runs) == 1:
@@ -959,6 +1021,14 @@ def _factor_pow2(t):
             return None
         return t & -t  # lowest set bit
     t = z3.simplify(t)
+    if z3.is_int_value(t):
+        return _factor_pow2(t.as_long())
+    if z3.is_add(t):
+        # a sum is a multiple of the smallest constant power of two dividing every addend
+        fs = [_factor_pow2(ch) for ch in t.children()]
+        if all(isinstance(f, int) for f in fs) and fs:
+            return min(fs)
+        return None
     if _is_pow2_term(t):
         return t
     if z3.is_mul(t):
